@@ -2,37 +2,15 @@
 
 package packages
 
-import (
-	"github.com/go-logr/logr"
-	"k8s.io/apimachinery/pkg/runtime"
-	"sigs.k8s.io/controller-runtime/pkg/client"
-
-	"package-operator.run/internal/adapters"
-)
-
 // Add-only accessors for the /verif correspondence harness (property C16).
 
-type (
-	// VerifImagePuller is the controller's image puller dependency.
-	VerifImagePuller = imagePuller
-	// VerifPackageDeployer is the controller's deployer dependency.
-	VerifPackageDeployer = packageDeployer
-)
+// VerifPackageDeployer is the controller's deployer dependency.
+type VerifPackageDeployer = packageDeployer
 
-// VerifNewPackageController is NewPackageController with the PackageDeployer passed in by the
-// caller (the harness wraps the real packages.NewPackageDeployer to see when Deploy is entered).
-// Everything else is wired exactly like NewPackageController: namespaced factories, no metrics
-// recorder, no hash modifier, no image prefix overrides.
-func VerifNewPackageController(
-	c client.Client, uncachedClient client.Client, log logr.Logger,
-	scheme *runtime.Scheme,
-	imagePuller VerifImagePuller,
-	deployer VerifPackageDeployer,
-) *GenericPackageController {
-	return newGenericPackageController(
-		adapters.NewGenericPackage, adapters.NewObjectDeployment,
-		c, uncachedClient, log, scheme, imagePuller,
-		deployer,
-		nil, nil, nil,
-	)
+// VerifWrapDeployer replaces the PackageDeployer the constructor (NewPackageController /
+// NewClusterPackageController) has wired into the unpack reconciler by wrap(that deployer).
+// The harness uses it to see when Deploy is entered; the wrapper delegates to the deployer it was
+// given, so the controller under test is exactly what the real constructor built.
+func VerifWrapDeployer(c *GenericPackageController, wrap func(VerifPackageDeployer) VerifPackageDeployer) {
+	c.unpackReconciler.packageDeployer = wrap(c.unpackReconciler.packageDeployer)
 }
